@@ -178,8 +178,30 @@ func runC20(c *core.Ctx) {
 		nOK := 0
 		outerConv := conv
 		conv := scalarUnit(c, outerConv)
+		// returns reachable from an edge on which the extraction is known to have succeeded
+		afterOK := map[*ssa.Return]bool{}
+		cutOK := core.CutEstablishing(core.IsTrue(isOK))
+		for _, b := range conv.Blocks {
+			if len(b.Instrs) == 0 {
+				continue
+			}
+			if _, isIf := b.Instrs[len(b.Instrs)-1].(*ssa.If); !isIf {
+				continue
+			}
+			for si, sc := range b.Succs {
+				if !cutOK(b, si) || len(sc.Instrs) == 0 {
+					continue
+				}
+				r := core.ReachFrom(core.Point{B: sc, I: 0}, nil, nil)
+				for _, ret := range core.Returns(conv) {
+					if r.Has(ret) || ret.Block() == sc {
+						afterOK[ret] = true
+					}
+				}
+			}
+		}
 		for _, ret := range core.Returns(conv) {
-			if !core.Guarded(conv, ret, core.IsTrue(isOK)) {
+			if !afterOK[ret] {
 				continue
 			}
 			nOK++
